@@ -5,7 +5,8 @@ EXTENDS DumpProtocol, Json
 CONSTANTS Formats        \* format -> <<top, nested>> (generated from the measurement)
 VARIABLE fmt
 MaxPts == 200
-GInit == \E f \in DOMAIN Formats, d \in {"Absent", "Old"}, k \in 0..MaxPts :
+\* "OldLinked": the previous copy has a second hard link (e.g. shared with an older compose)
+GInit == \E f \in DOMAIN Formats, d \in {"Absent", "Old", "OldLinked"}, k \in 0..MaxPts :
            k <= Formats[f][1] + Formats[f][2] /\ fmt = f /\ Start(Formats[f][1], Formats[f][2], d, k)
 GNext == Next /\ UNCHANGED fmt
 Final == pc \in {"done", "raised"}
